@@ -152,13 +152,15 @@ def C08():
         jobs.append(Kani("c08_" + n, "BitmapEvent::decompress (%s): Ok(v) => v.len() == width*height*4; no panic" % n,
                          tiers=("quick", "thorough") if q else ("thorough",), bounds={"case": n}, symbolic=["data bytes", "dest rectangle"],
                          functions=["core::event::BitmapEvent::decompress", "codec::rle::rgb565torgb32", "codec::rle::rle_32_decompress"], timeout=900, mem_gb=8))
+    jobs.append(MirJob("c08_mir_rle16_no_explicit_panic", "rle_16_decompress (interleaved RLE, which CBMC cannot execute): no explicit panic!/unreachable! is reachable in its control-flow graph (unknown order codes must be errors)",
+                       mirjobs.no_reachable_call(r"^rle_16_decompress$", r"begin_panic|panic_fmt|panic_display|panic_explicit|core::panicking::panic$", "explicit panic in the interleaved decoder", native=lambda m: mirjobs.RLE16_NATIVE)))
     jobs.append(MirJob("c08_mir_unsupported_depth", "BitmapEvent::decompress: every path through the `otherwise` edge of the switch on bpp (any depth other than the listed ones) allocates nothing, calls no decoder and returns Err; the listed depths are exactly {16, 32}",
                        mirjobs.decompress_dispatch))
     return Prop("C08", [("codec/rle.rs", "codec.rs"), ("core/event.rs", "event.rs")], jobs, lowerings=["L2"],
                 assumptions=[S2, S6, DEV, "L2 light error payloads",
                              "composition: rle_32_decompress = format-byte check + size guards + four process_plane calls on output[3..],[2..],[1..],[0..] sharing one cursor (shape checked by c08_mir_rle32_shape); panic-freedom of one call for every cursor content gives panic-freedom of the sequence"], stubs=[S2],
                 text="Bounded model checking of the real BitmapEvent::decompress, rle_32_decompress and process_plane: every data string of the stated length for images up to 3x2 (totality, exact output size, no out-of-bounds index), every unsupported depth. A decoder's panics sit at run lengths that cross a row or buffer end - single bytes the solver finds at once.",
-                note="Interleaved 16 bpp RLE (rle_16_decompress) is NOT covered: CBMC does not finish even a 1x1 image with 2 input bytes (DESIGN G3). Bounds: images <= 3x2, inputs <= 9 bytes; allocation proportionality is argued from the size expressions (w*h*4, w*h*2), not observed.",
+                note="Interleaved 16 bpp RLE (rle_16_decompress) is NOT executed: CBMC does not finish even a 1x1 image with 2 input bytes (DESIGN G3); only the absence of explicit panics in its CFG is decided (E2). Its index arithmetic and bounds are outside. Bounds: images <= 3x2, inputs <= 9 bytes; allocation proportionality is argued from the size expressions (w*h*4, w*h*2), not observed.",
                 technique="Kani/CBMC bounded model checking (SAT) of the bitmap decoders over all inputs of bounded length",
                 design_ref="DESIGN.md §4 C08",
                 outside=["rle_16_decompress (interleaved RLE)", "images larger than 3x2", "inputs longer than 9 bytes", "u16 overflow region of the raw 16 bpp index arithmetic (w*h*2 > 65535) beyond the witness"])
